@@ -242,7 +242,13 @@ def run_text_part(ctx: Ctx) -> None:
                 # broadcast / repeated targets, and sometimes the same line twice (fused by Stim into repeated targets)
                 qs = [q] + ([rng.randrange(nq) for _ in range(rng.randint(1, 2))] if rng.random() < 0.4 else [])
                 for _rep in range(2 if rng.random() < 0.25 else 1):
-                    lines.append(f"{g}({', '.join(ls)}) " + " ".join(map(str, qs)))
+                    if g == "U3" and rng.random() < 0.4:
+                        # the same gate written as a tag by hand, parameters named in another order (the simulator reads them by name)
+                        named = list(zip(("theta", "phi", "lambda"), ls))
+                        rng.shuffle(named)
+                        lines.append("I[U3(" + ", ".join(f"{k}={v}*pi" for k, v in named) + ")] " + " ".join(map(str, qs)))
+                    else:
+                        lines.append(f"{g}({', '.join(ls)}) " + " ".join(map(str, qs)))
                     shorthand += [(g, ls)] * len(qs)
                 seen_gates.add(g)
             elif r < 0.42:
